@@ -23,6 +23,14 @@ import Proofs.Lemmas.C11GroupsEnum
 import Proofs.Lemmas.C11Compose
 import Proofs.Lemmas.C11TiedRec
 import Proofs.Lemmas.C11TiedCompose
+import Proofs.Lemmas.C11Memo
+import Proofs.Lemmas.C11Count
+import Proofs.Lemmas.C11Relabel
+import Proofs.Lemmas.C11ErrIff
+import Proofs.Lemmas.C11TwoSidedIff
+import Proofs.Lemmas.C11EndToEnd
+import Proofs.Lemmas.C11Palindromic
+import Proofs.Lemmas.C11PalinSamples
 
 namespace C11.Props
 open Stats Stats.UStat Stats.UDist
@@ -264,5 +272,185 @@ theorem approx_formula (twoU n1 n2 : Nat) (T : List Nat) :
 
 /-- the model's binomial (Go `mathChoose` on its exact range) is the binomial coefficient -/
 theorem choose_is_binomial (n k : Nat) : choose n k = Nat.choose n k := C11.choose_eq n k
+
+/-! ### round 2: the driver's evaluators, relabelling, errors as an iff, two-sided characterisation -/
+
+/-- **makeUmemo_eq_A.** The memo-table evaluator the compiled driver runs (hash-map key sets built
+    top-down with pruning, filled bottom-up) computes the pure counting recurrence, for every input. -/
+theorem makeUmemo_eq_A (T : List Nat) (n1 twoU : Int) :
+    makeUmemo T n1 twoU = A T T.length n1 twoU :=
+  C11.makeUmemo_eq_A T n1 twoU
+
+/-- **count_table_is_recurrence.** The integer count table of the untied distribution is
+    `pRec · C(n+m,n)` entry by entry -/
+theorem count_table_is_recurrence (n m u : Nat) :
+    (((cntUntied n m).getD u 0 : Nat) : Rat) = pRec n m (u : Int) * (Nat.choose (n + m) n : Rat) :=
+  C11.cntUntied_getD n m u
+
+/-- hence the CDF/PMF the driver evaluates ARE the ones the theorems talk about (this replaces the
+    run-time cross-check, which is kept as a redundant sanity test) -/
+theorem cdf_eq_cdfPure (n1 n2 : Nat) (T : List Nat) (twoU : Int) : cdf n1 n2 T twoU = cdfPure n1 n2 T twoU :=
+  C11.cdf_eq_cdfPure_of C11.pUntied_getD_eq n1 n2 T twoU
+
+theorem pmf_eq_pmfPure (n1 n2 : Nat) (T : List Nat) (twoU : Int) : pmf n1 n2 T twoU = pmfPure n1 n2 T twoU :=
+  C11.pmf_eq_pmfPure_of C11.pUntied_getD_eq n1 n2 T twoU
+
+/-- **relabelling, 1**: the null distribution does not depend on the order in which the pooled values
+    are listed -/
+theorem null_dist_perm_invariant {α : Type} [LinearOrder α] (n : Nat) {pool pool' : List α}
+    (h : pool.Perm pool') (P : Nat → Bool) :
+    (Spec.UExact.nullDistOf n pool).countP P = (Spec.UExact.nullDistOf n pool').countP P :=
+  C11.nullDistOf_countP_perm n h P
+
+/-- **relabelling, 2**: nor on the values themselves, only on their order pattern -/
+theorem null_dist_order_iso_invariant {α β : Type} [LinearOrder α] [LinearOrder β] (f : α → β)
+    (n : Nat) (pool : List α) (hf : ∀ a ∈ pool, ∀ b ∈ pool, (a < b ↔ f a < f b)) :
+    Spec.UExact.nullDistOf n (pool.map f) = Spec.UExact.nullDistOf n pool :=
+  C11.nullDistOf_map_of_strictMonoOn f n pool hf
+
+/-- **relabelling, 3 (canonical pool)**: every count over the assignments of the actual pooled values
+    equals the count over the canonical pool with the same tie vector; hence the exact p-values depend
+    only on (n1, n2, T, U) -/
+theorem null_dist_canonical {α : Type} [LinearOrder α] (n : Nat) (pool : List α) (P : Nat → Bool) :
+    (Spec.UExact.nullDistOf n pool).countP P
+      = (Spec.UExact.nullDistOf n
+          (poolOf (Spec.UExact.tieVectorOf ((sortF pool).dedup) pool))).countP P :=
+  C11.nullDistOf_canonical n pool P
+
+/-- **errors_spec** as an iff: an error is returned ONLY for an empty sample (size error) or for
+    all-equal values (all-equal error), on both branches, whatever the limits -/
+theorem errors_spec_iff {α : Type} [LinearOrder α] (cdf : Nat → Nat → List Nat → Int → Rat)
+    (lim limT : Nat) (x1 x2 : List α) (alt : Alt) (e : Err) :
+    mannWhitney cdf lim limT x1 x2 alt = .error e ↔
+      (e = .sampleSize ∧ (x1 = [] ∨ x2 = [])) ∨
+      (e = .samplesEqual ∧ x1 ≠ [] ∧ x2 ≠ [] ∧ Spec.UExact.allEqual x1 x2 = true) :=
+  C11.errors_spec_iff cdf lim limT x1 x2 alt e
+
+/-- **two_sided_spec_iff**: exactly when the code's two-sided value equals the specification's
+    (L = P(2U ≤ u), G = P(2U ≥ u), m = min(u, c−u), c = 2·n1·n2). The N5 class is the negation. -/
+theorem two_sided_spec_iff (cdf : Int → Rat) (dist : List Nat) (h : IsCDFOf cdf dist) (c u : Nat) (hu : u ≤ c) :
+    exactP cdf .differs (u : Int) ((c : Int) - u) = Spec.UExact.pTwoSided dist u ↔
+      (if 2 * u = c then 1 ≤ 2 * Spec.UExact.ratMin (Spec.UExact.pLess dist u) (Spec.UExact.pGreater dist u)
+       else (2 * Spec.UExact.pLess dist (min u (c - u)) = 2 * Spec.UExact.ratMin (Spec.UExact.pLess dist u) (Spec.UExact.pGreater dist u)
+              ∧ 2 * Spec.UExact.ratMin (Spec.UExact.pLess dist u) (Spec.UExact.pGreater dist u) ≤ 1)
+          ∨ (2 * Spec.UExact.pLess dist (min u (c - u)) = 1
+              ∧ 1 ≤ 2 * Spec.UExact.ratMin (Spec.UExact.pLess dist u) (Spec.UExact.pGreater dist u))) :=
+  C11.two_sided_spec_iff cdf dist h c u hu
+
+/-! ### round 2: the property for ACTUAL samples, end to end
+
+Hypotheses common to the statements below: both samples non-empty, not all values equal, and the
+exact-branch condition of utest.go:165 holds (on the model's own hasTies flag). -/
+
+/-- on the exact branch the result is U by pair counting and the per-alternative formula applied to
+    `UDist{n1,n2,T}.CDF` with T the tie vector -/
+theorem exact_outcome_shape {α : Type} [LinearOrder α] (cdf : Nat → Nat → List Nat → Int → Rat) (lim limT : Nat)
+    (x1 x2 : List α) (alt : Alt) (h1 : x1 ≠ []) (h2 : x2 ≠ [])
+    (hne : Spec.UExact.allEqual x1 x2 = false)
+    (hb : exactBranch (ranks (labeledMerge (sortF x1) (sortF x2))).hasTies x1.length x2.length lim limT = true) :
+    mannWhitney cdf lim limT x1 x2 alt
+      = .exact ((Spec.UExact.twoUPairs x1 x2 : Nat) : Int)
+          (exactP (cdf x1.length x2.length (tieVector x1 x2)) alt ((Spec.UExact.twoUPairs x1 x2 : Nat) : Int)
+            (((2 * (x1.length * x2.length) : Nat) : Int) - ((Spec.UExact.twoUPairs x1 x2 : Nat) : Int))) :=
+  C11.exact_outcome_shape cdf lim limT x1 x2 alt h1 h2 hne hb
+
+/-- the CDF the code consults is the distribution function of the doubled statistic over all
+    C(N, n1) assignments of the ACTUAL pooled values — tied or not -/
+theorem cdf_is_null_distribution {α : Type} [LinearOrder α] (x1 x2 : List α) (h1 : x1 ≠ [])
+    (hne : Spec.UExact.allEqual x1 x2 = false) :
+    IsCDFOf (cdfPure x1.length x2.length (tieVector x1 x2)) (Spec.UExact.nullDist x1 x2) :=
+  C11.cdfPure_isCDFOf_nullDist x1 x2 h1 hne
+
+/-- **less_spec, end to end**: `MannWhitneyUTest(x1, x2, LocationLess)` = (U by pair counting,
+    P(U' ≤ U) over all equally likely assignments of the pooled values) -/
+theorem less_exact {α : Type} [LinearOrder α] (x1 x2 : List α) (lim limT : Nat) (h1 : x1 ≠ []) (h2 : x2 ≠ [])
+    (hne : Spec.UExact.allEqual x1 x2 = false)
+    (hb : exactBranch (ranks (labeledMerge (sortF x1) (sortF x2))).hasTies x1.length x2.length lim limT = true) :
+    mannWhitney cdfPure lim limT x1 x2 .less
+      = .exact ((Spec.UExact.twoUPairs x1 x2 : Nat) : Int)
+          (Spec.UExact.pLess (Spec.UExact.nullDist x1 x2) (Spec.UExact.twoUPairs x1 x2)) :=
+  C11.less_exact x1 x2 lim limT h1 h2 hne hb
+
+theorem example_merge : labeledMerge (sortF [(1 : Int), 2, 2]) (sortF [1, 3])
+    = [(1, false), (1, true), (2, true), (2, true), (3, false)] := by
+  simp [sortF, insertSorted, labeledMerge]
+
+/-- the hypotheses are satisfiable: x1 = {1,2,2}, x2 = {1,3} (tied, K = 3) -/
+example : mannWhitney cdfPure 50 25 [(1 : Int), 2, 2] [1, 3] .less
+    = .exact ((Spec.UExact.twoUPairs [(1 : Int), 2, 2] [1, 3] : Nat) : Int)
+        (Spec.UExact.pLess (Spec.UExact.nullDist [(1 : Int), 2, 2] [1, 3])
+          (Spec.UExact.twoUPairs [(1 : Int), 2, 2] [1, 3])) :=
+  less_exact _ _ 50 25 (by simp) (by simp) (by decide) (by rw [example_merge]; decide)
+
+/-- **greater_spec, end to end** -/
+theorem greater_exact {α : Type} [LinearOrder α] (x1 x2 : List α) (lim limT : Nat) (h1 : x1 ≠ []) (h2 : x2 ≠ [])
+    (hne : Spec.UExact.allEqual x1 x2 = false)
+    (hb : exactBranch (ranks (labeledMerge (sortF x1) (sortF x2))).hasTies x1.length x2.length lim limT = true) :
+    mannWhitney cdfPure lim limT x1 x2 .greater
+      = .exact ((Spec.UExact.twoUPairs x1 x2 : Nat) : Int)
+          (Spec.UExact.pGreater (Spec.UExact.nullDist x1 x2) (Spec.UExact.twoUPairs x1 x2)) :=
+  C11.greater_exact x1 x2 lim limT h1 h2 hne hb
+
+/-- the same for the evaluator the compiled driver runs (memo table / count table) -/
+theorem less_exact_driver {α : Type} [LinearOrder α] (x1 x2 : List α) (lim limT : Nat) (h1 : x1 ≠ []) (h2 : x2 ≠ [])
+    (hne : Spec.UExact.allEqual x1 x2 = false)
+    (hb : exactBranch (ranks (labeledMerge (sortF x1) (sortF x2))).hasTies x1.length x2.length lim limT = true) :
+    mannWhitney cdf lim limT x1 x2 .less
+      = .exact ((Spec.UExact.twoUPairs x1 x2 : Nat) : Int)
+          (Spec.UExact.pLess (Spec.UExact.nullDist x1 x2) (Spec.UExact.twoUPairs x1 x2)) :=
+  C11.less_exact_driver x1 x2 lim limT h1 h2 hne hb
+
+theorem greater_exact_driver {α : Type} [LinearOrder α] (x1 x2 : List α) (lim limT : Nat) (h1 : x1 ≠ []) (h2 : x2 ≠ [])
+    (hne : Spec.UExact.allEqual x1 x2 = false)
+    (hb : exactBranch (ranks (labeledMerge (sortF x1) (sortF x2))).hasTies x1.length x2.length lim limT = true) :
+    mannWhitney cdf lim limT x1 x2 .greater
+      = .exact ((Spec.UExact.twoUPairs x1 x2 : Nat) : Int)
+          (Spec.UExact.pGreater (Spec.UExact.nullDist x1 x2) (Spec.UExact.twoUPairs x1 x2)) :=
+  C11.greater_exact_driver x1 x2 lim limT h1 h2 hne hb
+
+/-- **two_sided_spec, end to end, under symmetry**: whenever the null distribution of the samples is
+    symmetric about n1·n2 the two-sided result is min(1, 2·min(one-sided)) -/
+theorem two_sided_exact_of_symmetric {α : Type} [LinearOrder α] (x1 x2 : List α) (lim limT : Nat)
+    (h1 : x1 ≠ []) (h2 : x2 ≠ []) (hne : Spec.UExact.allEqual x1 x2 = false)
+    (hb : exactBranch (ranks (labeledMerge (sortF x1) (sortF x2))).hasTies x1.length x2.length lim limT = true)
+    (hsym : ∀ v : Nat, ((Spec.UExact.nullDist x1 x2).filter (· ≤ v)).length
+      = ((Spec.UExact.nullDist x1 x2).filter (fun d => decide (d + v ≥ 2 * (x1.length * x2.length)))).length) :
+    mannWhitney cdfPure lim limT x1 x2 .differs
+      = .exact ((Spec.UExact.twoUPairs x1 x2 : Nat) : Int)
+          (Spec.UExact.pTwoSided (Spec.UExact.nullDist x1 x2) (Spec.UExact.twoUPairs x1 x2)) :=
+  C11.two_sided_exact_of_symmetric x1 x2 lim limT h1 h2 hne hb hsym
+
+/-- … which holds for samples without ties … -/
+theorem two_sided_exact_of_untied {α : Type} [LinearOrder α] (x1 x2 : List α) (lim limT : Nat)
+    (h1 : x1 ≠ []) (h2 : x2 ≠ []) (hne : Spec.UExact.allEqual x1 x2 = false)
+    (hT : (ranks (labeledMerge (sortF x1) (sortF x2))).hasTies = false)
+    (hb : exactBranch (ranks (labeledMerge (sortF x1) (sortF x2))).hasTies x1.length x2.length lim limT = true) :
+    mannWhitney cdfPure lim limT x1 x2 .differs
+      = .exact ((Spec.UExact.twoUPairs x1 x2 : Nat) : Int)
+          (Spec.UExact.pTwoSided (Spec.UExact.nullDist x1 x2) (Spec.UExact.twoUPairs x1 x2)) :=
+  C11.two_sided_exact_of_untied x1 x2 lim limT h1 h2 hne hT hb
+
+/-- … and for samples whose tie vector is palindromic -/
+theorem two_sided_exact_of_palindromic {α : Type} [LinearOrder α] (x1 x2 : List α) (lim limT : Nat)
+    (h1 : x1 ≠ []) (h2 : x2 ≠ []) (hne : Spec.UExact.allEqual x1 x2 = false)
+    (hb : exactBranch (ranks (labeledMerge (sortF x1) (sortF x2))).hasTies x1.length x2.length lim limT = true)
+    (hpal : (tieVector x1 x2).reverse = tieVector x1 x2) :
+    mannWhitney cdfPure lim limT x1 x2 .differs
+      = .exact ((Spec.UExact.twoUPairs x1 x2 : Nat) : Int)
+          (Spec.UExact.pTwoSided (Spec.UExact.nullDist x1 x2) (Spec.UExact.twoUPairs x1 x2)) :=
+  C11.two_sided_exact_of_palindromic x1 x2 lim limT h1 h2 hne hb hpal
+
+/-- reversing the tie vector mirrors the null distribution about n1·n2 -/
+theorem null_dist_mirror_reverse (T : List Nat) (n : Nat) (P : Nat → Bool) :
+    (Spec.UExact.nullDistOf n (poolOf T.reverse)).countP P
+      = ((Spec.UExact.nullDistOf n (poolOf T)).map (fun d => 2 * n * (T.sum - n) - d)).countP P :=
+  C11.nullDist_mirror_reverse T n P
+
+/-- a palindromic tie vector has a symmetric null distribution (sufficient, not necessary: T = [1,3]) -/
+theorem palindromic_symmetric (T : List Nat) (hpal : T.reverse = T) (n : Nat) (v : Nat) :
+    ((Spec.UExact.nullDistOf n (poolOf T)).filter (· ≤ v)).length
+      = ((Spec.UExact.nullDistOf n (poolOf T)).filter
+          (fun d => decide (d + v ≥ 2 * (n * (T.sum - n))))).length :=
+  C11.palindromic_symmetric T hpal n v
 
 end C11.Props
